@@ -14,6 +14,7 @@ pub enum Scenario {
     Corrupt(crate::fam_corrupt::CorScn),
     Foreign(crate::fam_foreign::ForScn),
     HistR(crate::fam_histr::HrScn),
+    Pair(crate::fam_pair::PairScn),
 }
 
 impl Scenario {
@@ -27,6 +28,7 @@ impl Scenario {
             Scenario::Corrupt(_) => "CORRUPT",
             Scenario::Foreign(_) => "FOREIGN",
             Scenario::HistR(_) => "HIST-R",
+            Scenario::Pair(_) => "PAIR",
         }
     }
 }
@@ -42,6 +44,7 @@ pub fn execute(s: &Scenario, ctx: &mut Ctx) {
         Scenario::Corrupt(x) => crate::fam_corrupt::execute(x, ctx),
         Scenario::Foreign(x) => crate::fam_foreign::execute(x, ctx),
         Scenario::HistR(x) => crate::fam_histr::execute(x, ctx),
+        Scenario::Pair(x) => crate::fam_pair::execute(x, ctx),
     }
 }
 
